@@ -61,13 +61,15 @@ def gen_(rng, i, tier):
     uni = 'int' if (kind and kind.endswith("Matrix")) else rng.choice(['int', 'pool'])
     mv = 5 if tier == "quick" else 7
     t = G.quad_terms(rng, uni, max_vars=mv, max_terms=6, spin=spin, ints=rng.random() < 0.7, zero_ok=(kind is None)) if quad else \
-        G.raw_terms(rng, uni, max_vars=mv, max_terms=6, max_deg=4, repeats=(kind is not None), ints=rng.random() < 0.7,
+        G.raw_terms(rng, uni, max_vars=mv, max_terms=6, max_deg=4, repeats=True, ints=rng.random() < 0.7,
                     zero_ok=(kind is None))
     if kind is None:
-        # dict input: keys as qubovert stores them (the documented form)
+        # dict input: keys as qubovert stores them (the documented form); for the two general solvers sometimes as a user
+        # writes them, with a label repeated inside a key (x*x*x = x, z*z*z = z, z*z = 1)
+        rawkeys = (not quad) and rng.random() < 0.3
         seen, tt = set(), []
         for k, v in t:
-            kk = tuple(sorted(set(k), key=C.enc))
+            kk = tuple(k) if rawkeys else tuple(sorted(set(k), key=C.enc))
             if quad and len(kk) > 2:
                 continue
             if kk not in seen:
